@@ -499,7 +499,7 @@ pub fn property() -> Property {
                 name: "commands",
                 plan: |t| match t {
                     Tier::Quick => Plan::Random { cases: 400_000, max_len: 400 },
-                    Tier::Thorough => Plan::Random { cases: 2_000_000, max_len: 500 },
+                    Tier::Thorough => Plan::Random { cases: 6_000_000, max_len: 500 },
                 },
                 case: case_commands,
                 min_classes: &[("typed-argument-list", 500_000), ("untyped-argument-list", 200_000), ("user-alias", 5000), ("user-function", 5000), ("finite-for-loop", 5000), ("recursive-operation-on-cyclic-structure", 2000)],
@@ -508,7 +508,7 @@ pub fn property() -> Property {
                 name: "commands-large",
                 plan: |t| match t {
                     Tier::Quick => Plan::Skip,
-                    Tier::Thorough => Plan::Random { cases: 200_000, max_len: 1500 },
+                    Tier::Thorough => Plan::Random { cases: 600_000, max_len: 1500 },
                 },
                 case: case_commands_large,
                 min_classes: &[],
@@ -517,7 +517,7 @@ pub fn property() -> Property {
                 name: "text",
                 plan: |t| match t {
                     Tier::Quick => Plan::Random { cases: 150_000, max_len: 200 },
-                    Tier::Thorough => Plan::Random { cases: 1_000_000, max_len: 300 },
+                    Tier::Thorough => Plan::Random { cases: 3_000_000, max_len: 300 },
                 },
                 case: case_text,
                 min_classes: &[],
@@ -526,7 +526,7 @@ pub fn property() -> Property {
                 name: "include-cycle",
                 plan: |t| match t {
                     Tier::Quick => Plan::Random { cases: 64, max_len: 4 },
-                    Tier::Thorough => Plan::Random { cases: 400, max_len: 4 },
+                    Tier::Thorough => Plan::Random { cases: 1_200, max_len: 4 },
                 },
                 case: case_cycle,
                 min_classes: &[],
